@@ -408,6 +408,52 @@ def stationary_history(tdgl, a, tmp):
     return t
 
 
+def holed_device(tdgl, a):
+    """A NEW holed Device whose film outline is much coarser than the mesh (the mesher has to insert points on the film edge, also
+    inside the terminals): box(6, 3, points=outline) with `holes` circular holes and terminals on the coarse edges."""
+    from tdgl.geometry import box, circle
+
+    layer = tdgl.Layer(coherence_length=1.0, london_lambda=2.0, thickness=0.1, gamma=10.0)
+    W, H = 6.0, 3.0
+    film = tdgl.Polygon("film", points=box(W, H, points=a.get("outline", 20)))
+    last = None
+    # Mesh.from_triangulation refuses some generated meshes ("Malformed Voronoi cell", coincident circumcentres): try a few
+    # discretisations of the holes, in a fixed order
+    for hp, f in ((21, 1.0), (16, 1.0), (12, 1.0), (24, 0.93), (18, 0.9)):
+        holes = [tdgl.Polygon("hole1", points=circle(0.6, points=hp, center=((0.0, 0.0) if a.get("holes", 1) == 1 else (-1.0, 0.2))))]
+        if a.get("holes", 1) >= 2:
+            holes.append(tdgl.Polygon("hole2", points=circle(0.4, points=hp, center=(1.3, -0.4))))
+        terms = [tdgl.Polygon("source", points=box(0.1, H, center=(-W / 2, 0))), tdgl.Polygon("drain", points=box(0.1, 2.0, center=(W / 2, 0)))]
+        if a.get("terminals", 2) >= 3:
+            terms.append(tdgl.Polygon("top", points=box(2.0, 0.1, center=(0.5, H / 2))))
+        dev = tdgl.Device("holed", layer=layer, film=film, holes=holes, terminals=terms, probe_points=[(-2.5, 0.0), (2.5, 0.0)], length_units="um")
+        try:
+            dev.make_mesh(max_edge_length=a.get("mel", 0.5) * f, smooth=a.get("smooth", 0))
+            return dev
+        except ValueError as e:
+            if "Malformed Voronoi cell" not in str(e):
+                raise
+            last = e
+    return None
+
+
+def holed_run(tdgl, a, tmp):
+    dev = holed_device(tdgl, a)
+    if dev is None:
+        return {"skipped": True, "args": a}
+    try:
+        ok, frames, dev, err = run_solver(tdgl, a, tmp, dev=dev)
+    except RuntimeError as e:
+        if "exactly singular" in str(e):        # the pure-Neumann Poisson matrix could not be factorised on this mesh: nothing to observe
+            return {"skipped": True, "args": a, "reason": repr(e)}
+        raise
+    t = conservation_trace(dev, a, ok, frames, err)
+    em = dev.mesh.edge_mesh
+    t["sites"] = int(len(dev.mesh.sites))
+    t["boundary_edges"] = int(len(em.boundary_edge_indices))
+    return t
+
+
 def history_run(tdgl, a, tmp):
     """A HISTORY on one Device object: mesh, solve, then re-mesh with a different boundary discretisation / move / rotate /
     reflect the device, and solve again; the frames of BOTH solves are checked (one trace)."""
